@@ -20,7 +20,7 @@ def _engine_error_types():
 
 class Record:
     __slots__ = ('status', 'trace', 'outcomes', 'decisions', 'steps', 'ticks', 'vtime', 'leftover',
-                 'after_done_handles', 'fault_hits', 'max_pending', 'out_of_order', 'digest',
+                 'after_done_handles', 'retry_timers', 'fault_hits', 'max_pending', 'out_of_order', 'digest',
                  'input_after', 'snap_before', 'snap_after', 'sched', 'done_seq', 'exc_reports',
                  'complete_results', 'results', 'gate_count', 'snaps', 'pending_nodes', 'probes', 'max_lag', 'pending_at_end')
 
@@ -140,6 +140,7 @@ def run_case(case: dict, scheduler, set_seed: int = 0, step_cap: int = 20000, ke
         rec.leftover = sim.leftover_tasks() if status == DONE else []
         rec.pending_nodes = sorted({g.node for g in sim.pending_gates()}) if status != DONE else []
         rec.after_done_handles = sim.after_done_handles
+        rec.retry_timers = list(sim.retry_timers)
         rec.fault_hits = sim.fault_hits
         rec.max_pending = sim.__dict__.get('max_pending', 0)
         rec.out_of_order = sim.out_of_order
